@@ -399,6 +399,11 @@ func (w *CfgWorld) Init(s *kernel.Sim) {
 		m.Backends.Backend = append(m.Backends.Backend, &configpb.LogBackend{Name: fmt.Sprintf("be%d", b), BackendSpec: fmt.Sprintf("trillian%d.example:8090", b)})
 	}
 	nLogs := t.Range(1, 3)
+	if t.Chance(1, 6) {
+		// a large set: whatever a validator does differently when there is much to validate (batching, fan-out,
+		// early exit) must not change the verdict
+		nLogs = t.Range(8, 40)
+	}
 	for l := 0; l < nLogs; l++ {
 		kind := []string{"p256", "rsa2048"}[t.Intn(2)]
 		k := oracle.Keys(kind)[l%2]
@@ -510,7 +515,29 @@ type cfgOutcome struct {
 	err      string
 }
 
+// guard runs a validator several times over: the verdict is a function of the configuration, so every call has to
+// give it. An acceptance or a panic in any of the calls is what is reported (a validator that fans its work out and
+// loses an error now and then accepts a malformed set only some of the time).
 func guard(f func() error) (out cfgOutcome) {
+	for i := 0; i < guardTrials; i++ {
+		o := guardOnce(f)
+		if i == 0 || o.panic != "" || (o.accepted && out.panic == "") {
+			keep := out.panic
+			out = o
+			if keep != "" && o.panic == "" {
+				out.panic = keep
+			}
+		}
+		if out.panic != "" {
+			return
+		}
+	}
+	return
+}
+
+const guardTrials = 6
+
+func guardOnce(f func() error) (out cfgOutcome) {
 	defer func() {
 		if r := recover(); r != nil {
 			out.panic = fmt.Sprint(r)
@@ -660,6 +687,9 @@ func (w *CfgWorld) bootAndLive(s *kernel.Sim) {
 	}
 	var bs []*booted
 	for i, c := range w.multi.GetLogConfigs().GetConfig() {
+		if i >= 4 {
+			break // large sets: the first four logs are booted and live a history
+		}
 		c = proto.Clone(c).(*configpb.LogConfig)
 		// the exported path would open a MySQL / PostgreSQL connection: boot with in-backend chain storage
 		c.ExtraDataIssuanceChainStorageBackend, c.CtfeStorageConnectionString = configpb.LogConfig_ISSUANCE_CHAIN_STORAGE_BACKEND_TRILLIAN_GRPC, ""
